@@ -207,6 +207,12 @@ impl Property for C20 {
             if rng.chance(1, 3) {
                 data[f * 14 + 13] = 0xFF;
             }
+            // sustained notes: a frame identical to its predecessor (its registers, R13 included, must
+            // still be written at its own sample)
+            if f > 0 && rng.chance(1, 4) {
+                let (a, b) = data.split_at_mut(f * 14);
+                b[..14].copy_from_slice(&a[(f - 1) * 14..f * 14]);
+            }
         }
         sc.push(Op::blob("frames", &[], data));
         let rate = if rng.bool() { *rng.pick(&super::c19::RATES) as i64 } else { rng.range(8000, 384000) };
